@@ -40,7 +40,7 @@ type Effects struct {
 
 func isHandlerType(t types.Type) bool {
 	nt, ok := t.(*types.Named)
-	return ok && nt.Obj().Name() == "Handler" && nt.Obj().Pkg() != nil && nt.Obj().Pkg().Name() == "ddperror"
+	return ok && nameIs(nt.Obj(), "Handler") && nt.Obj().Pkg() != nil && nameIs(nt.Obj().Pkg(), "ddperror")
 }
 
 func NewEffects(L *Loaded) *Effects {
